@@ -228,4 +228,18 @@ def run_case(case, seed):
                 worst = max(worst, 1 - c)
             r.true(name + ':modes', worst <= 1e-7 * cond, 'worst 1-|cos| between returned and reference mode: %.3e' % worst)
         r.true(name + ':inputs-unchanged', unchanged(x, sx) and unchanged(y, sy), 'x or y modified')
+    # call history on ONE snapshot object: after the calls above the caller refills x in place with another data set of the same
+    # sizes (a sliding window) and calls again with the same parameters: the result is that of a fresh object holding the new data
+    if case['fam'] == 'generic' and case['rep'] == 'ttsvd' and case['fl'] == 'TT':
+        X2, Y2 = make_data(rng, dims, m, 'generic', thr)
+        x2 = TT(X2.reshape(shape)); y2 = TT(Y2.reshape(shape))
+        x.cores = [c_.copy() for c_ in x2.cores]; x.ranks = list(x2.ranks)
+        for name, f in (('tdmd_exact', tdmd.tdmd_exact), ('tdmd_standard', tdmd.tdmd_standard)):
+            with r.op(name + ':refilled-object:call'):
+                ev_a, md_a = f(x, y2, threshold=thr)
+                ev_b, md_b = f(x2, y2, threshold=thr)
+                r.true(name + ':refilled-object:eigenvalues', np.asarray(ev_a).shape == np.asarray(ev_b).shape and np.allclose(ev_a, ev_b, rtol=1e-10, atol=1e-12),
+                       'same data in a refilled object and in a fresh object: %s vs %s' % (np.round(ev_a, 6), np.round(ev_b, 6)))
+                if meta_problem(md_a) is None and meta_problem(md_b) is None and list(md_a.row_dims) == list(md_b.row_dims):
+                    r.close(name + ':refilled-object:modes', dn(md_a), dn(md_b), 1e-9)
     return r
